@@ -1,7 +1,7 @@
 ---------------------------- MODULE NixVersionCmp ----------------------------
 (* Function-like part of NixVersion: the comparison operators and canRead / canWrite on every ordered *)
 (* pair of version triples.  Cases are initial states; one Eval step emits case + expected results.   *)
-EXTENDS NixVersionOrder
+EXTENDS NixCommon, NixVersionOrder
 CONSTANT Versions
 VARIABLES c, done
 cvars == <<c, done>>
